@@ -709,6 +709,7 @@ func checkReducer(seq []int, versions []Map, refs []refv, rep *hx.Report) (rc re
 // ---------------------------------------------------------------- histories
 
 type history struct {
+	preamble string // how versions[0] was built, when it is not the empty map
 	ops      []op
 	versions []Map // versions[0] is the empty map; ops[i] creates versions[i+1]
 	refs     []refv
@@ -729,6 +730,9 @@ func (h *history) strs() []string {
 	out := make([]string, len(h.ops))
 	for i, o := range h.ops {
 		out[i] = fmt.Sprintf("v%d := %s", i+1, o.String())
+	}
+	if h.preamble != "" {
+		out = append([]string{h.preamble}, out...)
 	}
 	return out
 }
@@ -1161,6 +1165,134 @@ func explore(cfg exploreCfg, first int, seed uint64) exploreOut {
 	return out
 }
 
+// ------------------------------------------------------------------ adversarial shapes
+
+// shapeTree is a binary tree shape; keys are assigned in order.
+type shapeTree struct{ l, r *shapeTree }
+
+func (t *shapeTree) height() int {
+	if t == nil {
+		return 0
+	}
+	return 1 + max(t.l.height(), t.r.height())
+}
+
+// mkShape: "dense" = perfect tree of height h; "sparseL"/"sparseR" = the sparsest AVL tree of
+// height h (Fibonacci tree), taller side left / right; "shrinkL"/"shrinkR" = the densest tree
+// of height h that loses a level when its minimum / maximum is removed.
+func mkShape(kind string, h int) *shapeTree {
+	if h <= 0 {
+		return nil
+	}
+	switch kind {
+	case "dense":
+		return &shapeTree{mkShape(kind, h-1), mkShape(kind, h-1)}
+	case "sparseL":
+		return &shapeTree{mkShape(kind, h-1), mkShape(kind, h-2)}
+	case "sparseR":
+		return &shapeTree{mkShape(kind, h-2), mkShape(kind, h-1)}
+	case "shrinkL":
+		// the densest tree of height h that loses a level when its smallest key is removed:
+		// all of its height hangs on the path to the minimum
+		return &shapeTree{mkShape(kind, h-1), mkShape("dense", h-2)}
+	default: // shrinkR: loses a level when its largest key is removed
+		return &shapeTree{mkShape("dense", h-2), mkShape(kind, h-1)}
+	}
+}
+
+// runShapes builds, for every pair of subtree shapes an AVL node can have (heights differing by
+// at most one; each side perfect or Fibonacci-sparse: the pairs in which SIZE and HEIGHT
+// disagree about which side is bigger are among them), the tree with exactly that shape --
+// keys inserted level by level, which needs no rotation -- and then deletes, from that one
+// version, the root key, the keys of the root's children and the extreme keys, with every
+// check of the random mode after each operation (invariants of the new version included).
+func runShapes(rng *hx.Rand, maxH int, rep *hx.Report) {
+	kinds := []string{"dense", "sparseL", "sparseR", "shrinkL", "shrinkR"}
+	for hl := 1; hl <= maxH; hl++ {
+		for hr := hl - 1; hr <= hl+1; hr++ {
+			if hr < 1 || hr > maxH {
+				continue
+			}
+			for _, kl := range kinds {
+				for _, kr := range kinds {
+					root := &shapeTree{mkShape(kl, hl), mkShape(kr, hr)}
+					// keys in order, insertion order by level
+					keyOf := map[*shapeTree]int64{}
+					var next int64
+					var number func(t *shapeTree)
+					number = func(t *shapeTree) {
+						if t == nil {
+							return
+						}
+						number(t.l)
+						keyOf[t] = next
+						next++
+						number(t.r)
+					}
+					number(root)
+					var order []int64
+					for level := []*shapeTree{root}; len(level) > 0; {
+						var nextLevel []*shapeTree
+						for _, t := range level {
+							order = append(order, keyOf[t])
+							if t.l != nil {
+								nextLevel = append(nextLevel, t.l)
+							}
+							if t.r != nil {
+								nextLevel = append(nextLevel, t.r)
+							}
+						}
+						level = nextLevel
+					}
+					var m Map
+					ref := map[int64]int64{}
+					for _, k := range order {
+						m = m.Set(k, k%7)
+						ref[k] = k % 7
+					}
+					var probeKeys []int64
+					for k := int64(-2); k < next+2; k++ {
+						probeKeys = append(probeKeys, k)
+					}
+					c := &checker{rng: rng.Fork(), full: false, probeKeys: probeKeys, rep: rep}
+					h := newHistory(c)
+					h.preamble = fmt.Sprintf("v0 := the tree with a %s left subtree of height %d and a %s right subtree of height %d: keys 0..%d set level by level (%d entries, root key %d)",
+						kl, hl, kr, hr, next-1, next, keyOf[root])
+					h.versions[0], h.refs[0] = m, mkRef(ref)
+					o0, complaint := c.verify(m, h.refs[0], false)
+					h.obs[0] = o0
+					rep.Evaluations++
+					rep.Count(fmt.Sprintf("shape:%s/%s", kl, kr))
+					rep.Sizes[fmt.Sprintf("entries<=%d", (int(next)/100+1)*100)]++
+					if complaint != "" {
+						h.violation(rep, "v0: "+complaint, nil)
+						continue
+					}
+					victims := []int64{keyOf[root], 0, next - 1}
+					if root.l != nil {
+						victims = append(victims, keyOf[root.l])
+					}
+					if root.r != nil {
+						victims = append(victims, keyOf[root.r])
+					}
+					for _, k := range victims {
+						if !h.push(c, op{kind: "delete", src: 0, k: k}, false) {
+							break
+						}
+					}
+					// and a run of deletions from the latest version: the root key again and again
+					for i := 0; i < 6 && len(h.refs[len(h.refs)-1].sorted) > 0; i++ {
+						last := h.refs[len(h.refs)-1].sorted
+						if !h.push(c, op{kind: "delete", src: len(h.versions) - 1, k: last[len(last)/2].k}, false) {
+							break
+						}
+					}
+				}
+			}
+		}
+	}
+}
+
 func main() {
 	var (
 		mode    = flag.String("mode", "random", "exhaustive (each operation applied to the latest version) | branching (to any earlier version) | random")
@@ -1190,6 +1322,22 @@ func main() {
 		}
 	}
 
+	if *mode == "shapes" {
+		runShapes(rng, *length, rep)
+		rep.Rule = fmt.Sprintf("every tree whose root has a left and a right subtree of heights differing by at most one (heights 1..%d), each side perfect, Fibonacci-sparse "+
+			"(left- or right-leaning) or the densest tree that shrinks when its minimum / maximum goes, built level by level; from it: delete the root key, the children's keys, the extreme keys, then six times the median key; "+
+			"all observables and the tree invariants after every operation, re-read of all earlier versions; implementation only", *length)
+		rep.Distinct = rep.Evaluations
+		rep.Exhaustive = true
+		if *jsonOut != "" {
+			if err := rep.Write(*jsonOut); err != nil {
+				fmt.Fprintln(os.Stderr, err)
+				os.Exit(2)
+			}
+		}
+		fmt.Printf("pmaptrace shapes: %d trees, %d violations\n", rep.Evaluations, len(rep.Violations))
+		return
+	}
 	if *mode == "valuetypes" {
 		runValueTypes(rng, *count, *maxOps, rep)
 		rep.Rule = fmt.Sprintf("%d random histories of <= %d Set/Delete operations over 6 keys for each of the value types float64 (with +0, -0, NaN), []int, any, func: "+
